@@ -380,6 +380,14 @@ def rule_who(chk):
                         "%s:mutates-_destinations" % m.fq, chk.where(m, mut.lineno),
                         good="registration API", fail="%s changes the destination list (a failing destination must still receive later messages; only add/remove may change it)" % m.fq)
     chk.instances("C08.who:_destinations references", n_refs, 6)
+    # destinations are invoked only by send: no other method of Destinations calls a caller-supplied callable
+    for m in set(dcls.methods.values()):
+        if m is send:
+            continue
+        for s_ in ctx.cg.sites[m]:
+            if s_.call is not None and isinstance(s_.call.func, ast.Name) and ctx.cg.classify(s_) in ("foreign", "unknown"):
+                chk.bad("C08.who", "%s:invokes-a-destination" % m.fq, s_.where,
+                        "`%s`: a destination is invoked outside Destinations.send, i.e. without fault isolation, failure report and fan-out to the other destinations" % s_.text[:50])
     # callers of send
     callers = {s.func.fq for s in ctx.cg.callers_of(send)}
     expected = {"_output:Logger.write", "_output:Destinations.add"}
